@@ -126,3 +126,51 @@ func trimTo(s string, n int) string {
 	}
 	return s
 }
+
+// RunnableGoroutines returns the number of goroutines (other than the caller) that can make progress on their own:
+// running, runnable, in a system call, or sleeping inside DVID code. Goroutines parked on a channel, select, lock,
+// wait group or condition are not counted: only another goroutine can release them.
+func RunnableGoroutines() int {
+	var dump []byte
+	for {
+		n := runtime.Stack(quiesceBuf, true)
+		if n < len(quiesceBuf) {
+			dump = quiesceBuf[:n]
+			break
+		}
+		quiesceBuf = make([]byte, 2*len(quiesceBuf))
+	}
+	busy := 0
+	for i, g := range bytes.Split(dump, []byte("\n\n")) {
+		if i == 0 || len(g) == 0 {
+			continue
+		}
+		hdrEnd := bytes.IndexByte(g, '\n')
+		if hdrEnd < 0 {
+			hdrEnd = len(g)
+		}
+		hdr := string(g[:hdrEnd])
+		lb, rb := strings.IndexByte(hdr, '['), strings.LastIndexByte(hdr, ']')
+		if lb < 0 || rb < lb {
+			continue
+		}
+		state := hdr[lb+1 : rb]
+		if c := strings.IndexByte(state, ','); c >= 0 {
+			state = state[:c]
+		}
+		body := string(g[hdrEnd:])
+		switch {
+		case state == "running", state == "runnable":
+			busy++
+		case state == "syscall":
+			if !(strings.Contains(body, "os/signal") || strings.Contains(body, "runtime.notetsleepg")) {
+				busy++
+			}
+		case state == "sleep":
+			if strings.Contains(body, "dvid/datatype/") || strings.Contains(body, "dvid/datastore.") {
+				busy++
+			}
+		}
+	}
+	return busy
+}
